@@ -152,9 +152,116 @@ fn model_rule(model: &mut Model, model_name: &str, sexp0: &str) -> String {
     model.ask(&format!("c06.rule {} {} {}", hex(model_name.as_bytes()), sexp0, table))
 }
 
-pub fn in_hypothesis(model: &mut Model, model_name: &str, sexp0: &str) -> bool {
+fn lean_hypothesis(model: &mut Model, model_name: &str, sexp0: &str) -> bool {
     let base = model_name.split(':').next().unwrap_or(model_name);
     model.ask(&format!("c06.hyp {} {}", hex(base.as_bytes()), sexp0)) == "true"
+}
+
+/// every `continue` is inside a loop of the same function (hypothesis of the C07 theorem for remove_continue)
+pub fn continue_in_loops(model: &mut Model, sexp0: &str) -> bool {
+    lean_hypothesis(model, "remove_continue", sexp0)
+}
+
+pub fn continue_in_loops_code(model: &mut Model, code: &str) -> bool {
+    match exec::parse(code) {
+        Ok(b) => continue_in_loops(model, &astsexp::block_to_sexp(&b)),
+        Err(_) => false,
+    }
+}
+
+/// C07: is the program inside the hypothesis of `census_zero_<rule>`?
+pub fn census_hypothesis(model: &mut Model, model_name: &str, sexp0: &str) -> bool {
+    if model_name.starts_with("remove_continue") {
+        continue_in_loops(model, sexp0)
+    } else {
+        true
+    }
+}
+
+fn contains_atom(s: &Sexp, atom: &str) -> bool {
+    match s {
+        Sexp::Atom(a) => a == atom,
+        Sexp::List(items) => items.iter().any(|i| contains_atom(i, atom)),
+    }
+}
+
+fn mentions_var(s: &Sexp, name_atom: &str) -> bool {
+    match s {
+        Sexp::Atom(_) => false,
+        Sexp::List(items) => {
+            if items.len() == 2 && head_is(s, "var") {
+                if let Sexp::Atom(a) = &items[1] {
+                    if a == name_atom {
+                        return true;
+                    }
+                }
+            }
+            items.iter().any(|i| mentions_var(i, name_atom))
+        }
+    }
+}
+
+/// Finding F9's region: some `repeat` whose body contains `continue` and whose `until`
+/// condition reads a variable declared by a `local` statement directly in the body.
+pub fn f9_region(s: &Sexp) -> bool {
+    if let Sexp::List(items) = s {
+        if head_is(s, "repeat") && items.len() == 3 {
+            let body = &items[1];
+            let cond = &items[2];
+            if contains_atom(body, "continue") {
+                if let Sexp::List(b) = body {
+                    if let Some(Sexp::List(stmts)) = b.get(1) {
+                        for st in stmts {
+                            if let Sexp::List(parts) = st {
+                                if head_is(st, "local") && parts.len() == 4 {
+                                    if let Sexp::List(names) = &parts[2] {
+                                        for n in names {
+                                            if let Sexp::List(np) = n {
+                                                if let Some(Sexp::Atom(name)) = np.get(1) {
+                                                    if mentions_var(cond, name) {
+                                                        return true;
+                                                    }
+                                                }
+                                            }
+                                        }
+                                    }
+                                }
+                                if head_is(st, "localfn") && parts.len() == 4 {
+                                    if let Sexp::Atom(name) = &parts[2] {
+                                        if mentions_var(cond, name) {
+                                            return true;
+                                        }
+                                    }
+                                }
+                            }
+                        }
+                    }
+                }
+            }
+        }
+        items.iter().any(f9_region)
+    } else {
+        false
+    }
+}
+
+/// C06: is the program inside the hypothesis of the behaviour theorems of that rule?
+/// remove_continue: no `continue` outside loops and not the F9 shape; remove_if_expression: at
+/// most one `elseif` per if-expression (F25); remove_floor_division: no `__idiv` metamethod (F26).
+pub fn behaviour_hypothesis(model: &mut Model, model_name: &str, sexp0: &str, code: &str) -> bool {
+    if model_name.starts_with("remove_continue") {
+        continue_in_loops(model, sexp0) && !Sexp::parse(sexp0).map(|t| f9_region(&t)).unwrap_or(true)
+    } else if model_name.starts_with("remove_if_expression") {
+        lean_hypothesis(model, "remove_if_expression", sexp0)
+    } else if model_name.starts_with("remove_floor_division") {
+        !code.contains("__idiv")
+    } else {
+        true
+    }
+}
+
+pub fn behaviour_hypothesis_all(model: &mut Model, sexp0: &str, code: &str) -> bool {
+    RULES.iter().all(|r| behaviour_hypothesis(model, r, sexp0, code))
 }
 
 /// One program through one rule: WF of the input tree, correspondence with the Lean model,
@@ -188,9 +295,13 @@ pub fn check_program(model: &mut Model, report: &mut Report, case: &LuauCase, co
     }
     let sexp1 = astsexp::block_to_sexp(&block1);
     let fired = sexp0 != sexp1;
-    let inside_h = in_hypothesis(model, case.model_name, &sexp0);
+    let inside_hc = census_hypothesis(model, case.model_name, &sexp0);
+    let inside_h = behaviour_hypothesis(model, case.model_name, &sexp0, code);
     if !inside_h {
-        report.count("outside_hypothesis", 1);
+        report.count("outside_behaviour_hypothesis", 1);
+    }
+    if !inside_hc {
+        report.count("outside_census_hypothesis", 1);
     }
 
     // ---- the trees the theorems quantify over: every parsed program must be well-formed
@@ -206,7 +317,7 @@ pub fn check_program(model: &mut Model, report: &mut Report, case: &LuauCase, co
 
     // ---- C07 oracle: independent census of the real output
     let mut oracle_failed = false;
-    if case.check_census && inside_h {
+    if case.check_census && inside_hc {
         if let Ok(tree1) = Sexp::parse(&sexp1) {
             let left = sexp_census(case.rule_name, &tree1);
             if left != 0 {
@@ -217,7 +328,7 @@ pub fn check_program(model: &mut Model, report: &mut Report, case: &LuauCase, co
                     let b0 = match exec::parse(text) { Ok(b) => b, Err(_) => return false };
                     let mut b1 = b0.clone();
                     if exec::apply_rules(&mut b1, &rules, text).is_err() { return false; }
-                    if !in_hypothesis(model, &model_name, &astsexp::block_to_sexp(&b0)) { return false; }
+                    if !census_hypothesis(model, &model_name, &astsexp::block_to_sexp(&b0)) { return false; }
                     match Sexp::parse(&astsexp::block_to_sexp(&b1)) {
                         Ok(t) => sexp_census(&rule_name, &t) != 0,
                         Err(_) => false,
@@ -234,6 +345,22 @@ pub fn check_program(model: &mut Model, report: &mut Report, case: &LuauCase, co
             }
             report.count("census_checked", 1);
         }
+        // the same question on the TEXT of the real output
+        let mut dense = darklua_core::generator::DenseLuaGenerator::default();
+        darklua_core::generator::LuaGenerator::write_block(&mut dense, &block1);
+        let text = darklua_core::generator::LuaGenerator::into_string(dense);
+        let left = text_census(case.rule_name, &text);
+        if left != 0 {
+            oracle_failed = true;
+            report.violation(Violation {
+                kind: "oracle".into(),
+                check: format!("{}:text-census", case.rule_name),
+                what: format!("{} Luau-only token(s) of the construct remain in the dense text of the real output of {}", left, case.rule_name),
+                input: json!({"rule": case.rule_json, "code": code, "output": text}),
+                failing_input_found: true,
+            });
+        }
+        report.count("text_census_checked", 1);
     }
 
     // ---- C06 oracle: behaviour of the real output
@@ -246,7 +373,7 @@ pub fn check_program(model: &mut Model, report: &mut Report, case: &LuauCase, co
                     let mut fails = |text: &str| -> bool {
                         if rulecheck::oracle_fails(model, &rules, text).is_none() { return false; }
                         match exec::parse(text) {
-                            Ok(b) => in_hypothesis(model, &model_name, &astsexp::block_to_sexp(&b)),
+                            Ok(b) => behaviour_hypothesis(model, &model_name, &astsexp::block_to_sexp(&b), text),
                             Err(_) => false,
                         }
                     };
@@ -300,4 +427,209 @@ pub fn check_program(model: &mut Model, report: &mut Report, case: &LuauCase, co
     }
     report.count("correspondence_compared", 1);
     if fired { CaseResult::Fired } else { CaseResult::Trivial }
+}
+
+
+// ------------------------------------------------------------------------------------------
+// census over TEXT: a small Luau-aware scanner (skips strings, comments, long brackets)
+// ------------------------------------------------------------------------------------------
+
+fn luau_tokens(text: &str) -> Vec<String> {
+    let b = text.as_bytes();
+    let mut out = Vec::new();
+    let mut i = 0;
+    let puncts = ["...", "..=", "//=", "..", "//", "+=", "-=", "*=", "/=", "%=", "^=", "==", "~=", "<=", ">=", "::", "->", "<<", ">>"];
+    while i < b.len() {
+        let c = b[i];
+        if c.is_ascii_whitespace() {
+            i += 1;
+            continue;
+        }
+        if c == b'-' && i + 1 < b.len() && b[i + 1] == b'-' {
+            // comment (long or short)
+            i += 2;
+            if i < b.len() && b[i] == b'[' {
+                let mut j = i + 1;
+                while j < b.len() && b[j] == b'=' {
+                    j += 1;
+                }
+                if j < b.len() && b[j] == b'[' {
+                    let level = j - i - 1;
+                    let close = format!("]{}]", "=".repeat(level));
+                    match text[j..].find(&close) {
+                        Some(k) => i = j + k + close.len(),
+                        None => i = b.len(),
+                    }
+                    continue;
+                }
+            }
+            while i < b.len() && b[i] != b'\n' {
+                i += 1;
+            }
+            continue;
+        }
+        if c == b'[' {
+            let mut j = i + 1;
+            while j < b.len() && b[j] == b'=' {
+                j += 1;
+            }
+            if j < b.len() && b[j] == b'[' {
+                let level = j - i - 1;
+                let close = format!("]{}]", "=".repeat(level));
+                match text[j..].find(&close) {
+                    Some(k) => i = j + k + close.len(),
+                    None => i = b.len(),
+                }
+                out.push("<string>".to_owned());
+                continue;
+            }
+        }
+        if c == b'"' || c == b'\'' {
+            i += 1;
+            while i < b.len() && b[i] != c {
+                if b[i] == b'\\' {
+                    i += 1;
+                }
+                i += 1;
+            }
+            i += 1;
+            out.push("<string>".to_owned());
+            continue;
+        }
+        if c == b'`' {
+            // interpolated string: skip to the closing backtick (nested braces / quotes skipped roughly)
+            out.push("`".to_owned());
+            i += 1;
+            let mut depth = 0usize;
+            while i < b.len() {
+                match b[i] {
+                    b'\\' => i += 1,
+                    b'{' => depth += 1,
+                    b'}' => depth = depth.saturating_sub(1),
+                    b'`' if depth == 0 => break,
+                    _ => {}
+                }
+                i += 1;
+            }
+            i += 1;
+            continue;
+        }
+        if c.is_ascii_alphabetic() || c == b'_' {
+            let start = i;
+            while i < b.len() && (b[i].is_ascii_alphanumeric() || b[i] == b'_') {
+                i += 1;
+            }
+            out.push(text[start..i].to_owned());
+            continue;
+        }
+        if c.is_ascii_digit() || (c == b'.' && i + 1 < b.len() && b[i + 1].is_ascii_digit()) {
+            let start = i;
+            while i < b.len()
+                && (b[i].is_ascii_alphanumeric()
+                    || b[i] == b'_'
+                    || (b[i] == b'.' && !(i + 1 < b.len() && b[i + 1] == b'.'))
+                    || ((b[i] == b'+' || b[i] == b'-') && (b[i - 1] == b'e' || b[i - 1] == b'E') && !text[start..i].starts_with("0x") && !text[start..i].starts_with("0X")))
+            {
+                i += 1;
+            }
+            out.push(format!("#{}", &text[start..i]));
+            continue;
+        }
+        let mut matched = false;
+        for p in puncts.iter() {
+            if text[i..].starts_with(p) {
+                out.push((*p).to_owned());
+                i += p.len();
+                matched = true;
+                break;
+            }
+        }
+        if !matched {
+            let ch = text[i..].chars().next().unwrap();
+            out.push(ch.to_string());
+            i += ch.len_utf8();
+        }
+    }
+    out
+}
+
+/// occurrences of the Luau-only TOKENS of the rule's construct in `text`
+pub fn text_census(rule: &str, text: &str) -> usize {
+    let toks = luau_tokens(text);
+    let mut n = 0;
+    for (i, t) in toks.iter().enumerate() {
+        let next = toks.get(i + 1).map(|s| s.as_str()).unwrap_or("<eof>");
+        let hit = match rule {
+            "remove_compound_assignment" => matches!(t.as_str(), "+=" | "-=" | "*=" | "/=" | "//=" | "%=" | "^=" | "..="),
+            "remove_floor_division" => t == "//" || t == "//=",
+            "remove_interpolated_string" => t == "`",
+            "remove_continue" => t == "continue" && matches!(next, "end" | "else" | "elseif" | "until" | "<eof>" | ";"),
+            "convert_luau_number" => t.starts_with('#') && (t.contains('_') || t.starts_with("#0b") || t.starts_with("#0B")),
+            "make_assignment_local" => {
+                t == "const"
+                    && (next == "function" || next.chars().next().map(|c| c.is_ascii_alphabetic() || c == '_').unwrap_or(false))
+                    && !matches!(next, "and" | "or" | "then" | "do" | "end" | "else" | "elseif" | "until" | "in")
+            }
+            "remove_types" => t == "::" || t == "->" || t == "<<",
+            "remove_attribute" => t == "@",
+            _ => false,
+        };
+        if hit {
+            n += 1;
+        }
+    }
+    n
+}
+
+/// Replay the witnesses of known_findings.json for `property`: still failing as described ⇒
+/// `KNOWN-FINDING`; no longer failing ⇒ silence.
+pub fn replay_known_findings(model: &mut Model, report: &mut Report, property: &str) {
+    for entry in crate::report::known_findings(property) {
+        let id = entry["id"].as_str().unwrap_or("?").to_owned();
+        let witness = &entry["witness"];
+        let code = match witness["code"].as_str() {
+            Some(c) => c,
+            None => continue,
+        };
+        let rule_json = witness["rule"].as_str().unwrap_or("'remove_continue'");
+        let rule = match exec::rule_from_json(rule_json) {
+            Ok(r) => r,
+            Err(_) => continue,
+        };
+        let rules = vec![rule];
+        let kind = witness["kind"].as_str().unwrap_or("behaviour");
+        let still = if kind == "lua51-text" {
+            // all nine rules, then the dense text must be strict Lua 5.1
+            match exec::parse(code) {
+                Ok(b0) => {
+                    let all: Vec<Box<dyn Rule>> = RULES.iter().map(|r| exec::rule_from_json(&format!("'{}'", r)).unwrap()).collect();
+                    let mut b1 = b0.clone();
+                    if exec::apply_rules(&mut b1, &all, code).is_ok() {
+                        let mut dense = darklua_core::generator::DenseLuaGenerator::default();
+                        darklua_core::generator::LuaGenerator::write_block(&mut dense, &b1);
+                        let text = darklua_core::generator::LuaGenerator::into_string(dense);
+                        crate::lua51check::check(&text).is_err()
+                    } else {
+                        false
+                    }
+                }
+                Err(_) => false,
+            }
+        } else if kind == "census" {
+            let name = rules[0].get_name().to_owned();
+            match exec::parse(code) {
+                Ok(b0) => {
+                    let mut b1 = b0.clone();
+                    exec::apply_rules(&mut b1, &rules, code).is_ok()
+                        && Sexp::parse(&astsexp::block_to_sexp(&b1)).map(|t| sexp_census(&name, &t) != 0).unwrap_or(false)
+                }
+                Err(_) => false,
+            }
+        } else {
+            rulecheck::oracle_fails(model, &rules, code).is_some()
+        };
+        if still {
+            report.known_finding(&id, entry["expected_wrong"].as_str().unwrap_or(""));
+        }
+    }
 }
